@@ -8,6 +8,8 @@ Structural clauses decided:
  R3 per-flow data is only reached through the looked-up cache entry
  C08.R3 / C19.R1,R2,R4 the TLS reassembly cache and the TCP timestamp tracker are keyed by the packet's own connection
  W.R2 every worker gets the configured capacity and configuration unchanged
+ W.R7 / W.R6 a rejected packet never ends a capture loop; a worker never discards a dequeued packet; C11.R1 (reader) a reader left in
+ the flow table keeps no bytes it can never use; TW IPv4/IPv6 twins agree
 """
 from ..engine import cfg as C
 from ..engine import q as Q
